@@ -4,6 +4,7 @@ import (
 	"bytes"
 	"fmt"
 	"sort"
+	"strings"
 
 	"verifharness/internal/catar"
 	"verifharness/internal/gen"
@@ -287,6 +288,7 @@ type shape struct {
 	fans                                map[int]int
 	kinds                               map[string]int
 	xattrs                              int
+	xTrusted, xCharset, xOtherNS        bool
 }
 
 func (sh *shape) walk(n *catar.Node, depth int) {
@@ -298,6 +300,17 @@ func (sh *shape) walk(n *catar.Node, depth int) {
 		sh.maxName = len(n.Name)
 	}
 	sh.xattrs += len(n.Xattrs)
+	for _, x := range n.Xattrs {
+		switch {
+		case strings.HasPrefix(x.Key, "trusted."):
+			sh.xTrusted = true
+		case !strings.HasPrefix(x.Key, "user."):
+			sh.xOtherNS = true
+		}
+		if x.Key != "" && strings.IndexByte("SCHILY.xattr.", x.Key[0]) >= 0 {
+			sh.xCharset = true
+		}
+	}
 	switch n.Kind() {
 	case catar.S_IFDIR:
 		sh.kinds["dir"]++
